@@ -1,6 +1,7 @@
 package main
 
 import (
+	"go/constant"
 	"fmt"
 	"go/token"
 	"go/types"
@@ -190,7 +191,13 @@ type fnFacts struct {
 	fields []ssa.Value              // candidate subject field values (type *model.Field) with tests or parameter
 	st     map[ssa.Value][]St       // field value -> state at entry of each block (by block index)
 	entry  map[ssa.Value]St         // entry state for parameter fields
+	// a function that is not handed the field (only pieces of it) inherits the state of its call sites: every block has this state
+	hasCtx bool
+	ctx    St
 }
+
+// ctxField stands for "the field under emission at the call sites" in functions that have no field parameter.
+var ctxField ssa.Value = ssa.NewConst(constant.MakeBool(true), types.Typ[types.Bool])
 
 type matrix struct {
 	w       *World
@@ -199,6 +206,9 @@ type matrix struct {
 	funcs   []*ssa.Function        // generator-reachable subject functions
 	summ    map[summKey]src
 	inprog  map[summKey]bool
+	pdeps   map[paramKey]src
+	pbusy   map[paramKey]bool
+	callers map[*ssa.Function][]ssa.CallInstruction
 }
 
 type summKey struct {
@@ -282,8 +292,18 @@ func fieldTest(cond ssa.Value) (f ssa.Value, refine func(St, bool) St) {
 }
 
 func newMatrix(w *World) *matrix {
-	m := &matrix{w: w, facts: map[*ssa.Function]*fnFacts{}, anchors: map[*ssa.Function]bool{}, summ: map[summKey]src{}, inprog: map[summKey]bool{}}
+	m := &matrix{w: w, facts: map[*ssa.Function]*fnFacts{}, anchors: map[*ssa.Function]bool{}, summ: map[summKey]src{}, inprog: map[summKey]bool{},
+		pdeps: map[paramKey]src{}, pbusy: map[paramKey]bool{}, callers: map[*ssa.Function][]ssa.CallInstruction{}}
 	m.funcs = generatorReach(w)
+	for _, fn := range m.funcs {
+		forEachInstr(fn, func(b *ssa.BasicBlock, ins ssa.Instruction) {
+			if c, ok := ins.(ssa.CallInstruction); ok {
+				if g := c.Common().StaticCallee(); g != nil && g != fn {
+					m.callers[g] = append(m.callers[g], c)
+				}
+			}
+		})
+	}
 	for _, fn := range m.funcs {
 		ff := &fnFacts{fn: fn, cd: computeCD(fn), st: map[ssa.Value][]St{}, entry: map[ssa.Value]St{}}
 		seen := map[ssa.Value]bool{}
@@ -321,12 +341,19 @@ func (m *matrix) solve() {
 		})
 	}
 	for _, ff := range m.facts {
+		hasParam := false
 		for _, f := range ff.fields {
 			if _, isParam := f.(*ssa.Parameter); isParam && hasCaller[ff.fn] {
 				ff.entry[f] = stBot
 			} else {
 				ff.entry[f] = stTop
 			}
+			if _, isParam := f.(*ssa.Parameter); isParam {
+				hasParam = true
+			}
+		}
+		if !hasParam && hasCaller[ff.fn] {
+			ff.hasCtx, ff.ctx = true, stBot
 		}
 	}
 	for iter := 0; iter < 50; iter++ {
@@ -349,6 +376,18 @@ func (m *matrix) solve() {
 				gf := m.facts[g]
 				if g == nil || gf == nil {
 					return
+				}
+				if gf.hasCtx && g != fn {
+					s, sf := m.stateAt(fn, b)
+					if sf == nil {
+						s = stTop
+					}
+					if !s.empty() {
+						if nw := gf.ctx.join(s); nw != gf.ctx {
+							gf.ctx = nw
+							changed = true
+						}
+					}
 				}
 				for i, p := range g.Params {
 					if !isFieldPtr(p.Type()) || i >= len(c.Common().Args) {
@@ -467,6 +506,9 @@ func (m *matrix) stateAt(fn *ssa.Function, b *ssa.BasicBlock) (St, ssa.Value) {
 			best, bf = s, f
 		}
 	}
+	if ff.hasCtx && !ff.ctx.empty() && (bf == nil || popcount(ff.ctx) < popcount(best)) {
+		best, bf = ff.ctx, ctxField
+	}
 	return best, bf
 }
 
@@ -498,11 +540,19 @@ func (m *matrix) feasible(fn *ssa.Function, b *ssa.BasicBlock, u *unit) bool {
 // ---- dependence ----
 
 type depCtx struct {
-	m    *matrix
-	fn   *ssa.Function
-	u    *unit
-	memo map[ssa.Value]src
-	busy map[ssa.Value]bool
+	m        *matrix
+	fn       *ssa.Function
+	u        *unit
+	memo     map[ssa.Value]src
+	busy     map[ssa.Value]bool
+	bindParams bool // parameters carry what the repo call sites pass in (site evaluation only, never inside helper summaries)
+	noOpaque bool // summarise calls to emitter roots like any helper (used by the sibling-arm rules)
+}
+
+type paramKey struct {
+	p *ssa.Parameter
+	u unit
+	s bool
 }
 
 func (m *matrix) ctx(fn *ssa.Function, u *unit) *depCtx {
@@ -537,7 +587,12 @@ func (c *depCtx) compute(v ssa.Value) src {
 	switch x := v.(type) {
 	case *ssa.Const, *ssa.Global, *ssa.Function, *ssa.Builtin:
 		return 0
-	case *ssa.Parameter, *ssa.FreeVar:
+	case *ssa.Parameter:
+		if !c.bindParams {
+			return 0
+		}
+		return c.m.paramDeps(x, c.u)
+	case *ssa.FreeVar:
 		return 0
 	case *ssa.Alloc:
 		// object taint: everything stored into the object (in feasible blocks), builder writes included
@@ -707,8 +762,10 @@ func (c *depCtx) callDeps(call *ssa.Call) src {
 			return d
 		}
 	}
-	if c.m.anchors[f] {
-		return 0 // delegation to another emitter: its sites are judged on their own
+	if c.m.anchors[f] && !c.noOpaque {
+		// delegation to another emitter: what it reads itself, and what it makes of the arguments it is handed,
+		// is judged at its own sites (parameters are bound to their call-site arguments there)
+		return d
 	}
 	for _, a := range cc.Args {
 		d |= c.deps(a)
@@ -725,12 +782,87 @@ func (c *depCtx) callDeps(call *ssa.Call) src {
 					}
 				}
 			}
+			if gf := c.m.facts[f]; gf != nil && gf.hasCtx && !gf.ctx.isTop() {
+				spec = true
+			}
 		}
 		d |= c.m.summary(f, c.u, spec)
 	}
 	_ = name
 	return d
 }
+
+// paramDeps: what a parameter carries into the function - the join, over the repo call sites, of the argument's dependence in the caller
+// (field/packet/generator parameters carry nothing by themselves).
+func (m *matrix) paramDeps(p *ssa.Parameter, u *unit) src {
+	fn := p.Parent()
+	if fn == nil || isFieldPtr(p.Type()) {
+		return 0
+	}
+	switch modelTypeName(p.Type()) {
+	case "Packet", "BinaryModel", "Field", "Configuration":
+		return 0 // containers: what is read out of them is a source of its own
+	}
+	if n := namedOf(p.Type()); n != nil && strings.HasSuffix(n.Obj().Name(), "Generator") {
+		return 0
+	}
+	key := paramKey{p: p}
+	if u != nil {
+		key.u, key.s = *u, true
+	}
+	if d, ok := m.pdeps[key]; ok {
+		return d
+	}
+	if m.pbusy[key] {
+		return 0
+	}
+	m.pbusy[key] = true
+	idx := -1
+	for i, q := range fn.Params {
+		if q == p {
+			idx = i
+		}
+	}
+	var d src
+	for _, site := range m.callers[fn] {
+		args := site.Common().Args
+		if idx < 0 || idx >= len(args) {
+			continue
+		}
+		caller := site.Parent()
+		if m.facts[caller] == nil {
+			continue
+		}
+		if u != nil && !m.feasible(caller, site.Block(), u) {
+			continue
+		}
+		cc := m.ctx(caller, u)
+		cc.bindParams = true
+		d |= cc.deps(args[idx])
+		d |= cc.ctrlDepsSelective(site.Block(), args[idx])
+	}
+	delete(m.pbusy, key)
+	// field-specific sources only travel with the field: a callee that is not handed the field under emission keeps the
+	// configuration-derived part only (its caller's "current field" is a different one, e.g. the enclosing object field)
+	hasField := false
+	for _, q := range fn.Params {
+		if isFieldPtr(q.Type()) {
+			hasField = true
+		}
+	}
+	if ff := m.facts[fn]; ff != nil && ff.hasCtx && !ff.ctx.empty() && !ff.ctx.isTop() {
+		hasField = true
+	}
+	if !hasField {
+		d &= sLE | sSP | sAP | sCP
+	}
+	m.pdeps[key] = d &^ sNAME
+	return m.pdeps[key]
+}
+
+// ctrlDepsSelective: control dependence is not carried through arguments (the callee's own sites get the caller's control
+// context only through their data); kept as a hook, returns nothing.
+func (c *depCtx) ctrlDepsSelective(b *ssa.BasicBlock, v ssa.Value) src { return 0 }
 
 // fromLengthField: v derives from Packet.LengthField or from a field's LenAttr (the length field's own attribute).
 func (c *depCtx) fromLengthField(v ssa.Value) bool {
@@ -911,11 +1043,48 @@ func isStringish(t types.Type) bool {
 
 func (m *matrix) sitesOf(fn *ssa.Function) []site {
 	var out []site
+	// an accumulator is a string whose left spine of concatenations ends in a phi or a local variable (text emitted so far)
+	var isAccum func(v ssa.Value, d int) bool
+	isAccum = func(v ssa.Value, d int) bool {
+		if d > 32 {
+			return false
+		}
+		switch x := v.(type) {
+		case *ssa.Phi:
+			// text so far: some incoming value is itself a concatenation (a choice among constants is a selector, not an accumulator)
+			for _, e := range x.Edges {
+				if bo, ok := e.(*ssa.BinOp); ok && bo.Op == token.ADD {
+					return true
+				}
+				if ph, ok := e.(*ssa.Phi); ok && ph != x && d < 8 && isAccum(ph, d+1) {
+					return true
+				}
+			}
+			return false
+		case *ssa.BinOp:
+			return x.Op == token.ADD && isAccum(x.X, d+1)
+		case *ssa.UnOp:
+			_, ok := x.X.(*ssa.Alloc)
+			return ok && x.Op == token.MUL
+		}
+		return false
+	}
 	forEachInstr(fn, func(b *ssa.BasicBlock, ins ssa.Instruction) {
 		switch x := ins.(type) {
 		case ssa.CallInstruction:
 			if f := x.Common().StaticCallee(); f != nil && builderWriters[f.String()] && len(x.Common().Args) > 1 {
 				out = append(out, site{fn, ins, x.Common().Args[1]})
+			}
+		case *ssa.BinOp:
+			// string accumulation: code = code + piece  -> the piece is emitted here
+			if x.Op != token.ADD {
+				return
+			}
+			if bt, ok := x.Type().Underlying().(*types.Basic); !ok || bt.Info()&types.IsString == 0 {
+				return
+			}
+			if isAccum(x.X, 0) {
+				out = append(out, site{fn, ins, x.Y})
 			}
 		case *ssa.Return:
 			if len(x.Results) == 0 || !isStringish(x.Results[0].Type()) {
@@ -930,11 +1099,54 @@ func (m *matrix) sitesOf(fn *ssa.Function) []site {
 					return // the builder's writes are the sites
 				}
 			}
-			if _, isConst := v.(*ssa.Const); isConst {
-				out = append(out, site{fn, ins, v})
-				return
+			// a string assembled from pieces (out := a; out += b; return out): every piece is a site in the block that
+			// appended it (for a phi: the block the value arrives from)
+			type leaf struct {
+				v  ssa.Value
+				at ssa.Instruction
 			}
-			out = append(out, site{fn, ins, v})
+			var leaves []leaf
+			seen := map[ssa.Value]bool{}
+			var pieces func(v ssa.Value, at ssa.Instruction)
+			pieces = func(v ssa.Value, at ssa.Instruction) {
+				if seen[v] {
+					return
+				}
+				seen[v] = true
+				switch y := v.(type) {
+				case *ssa.Phi:
+					konst := false
+					for _, e := range y.Edges {
+						if _, ok := e.(*ssa.Const); ok {
+							konst = true
+						}
+					}
+					if konst {
+						leaves = append(leaves, leaf{y, at}) // the choice among constants is the information
+						return
+					}
+					for i, e := range y.Edges {
+						pred := y.Block().Preds[i]
+						pieces(e, pred.Instrs[len(pred.Instrs)-1])
+					}
+				case *ssa.BinOp:
+					if y.Op == token.ADD {
+						pieces(y.X, y)
+						pieces(y.Y, y)
+						return
+					}
+					leaves = append(leaves, leaf{y, at})
+				default:
+					leaves = append(leaves, leaf{v, at})
+				}
+			}
+			pieces(v, ins)
+			for _, l := range leaves {
+				if _, ok := l.v.(*ssa.Const); ok {
+					continue
+				}
+				out = append(out, site{fn, l.at, l.v})
+			}
 		}
 	})
 	return out
@@ -943,73 +1155,179 @@ func (m *matrix) sitesOf(fn *ssa.Function) []site {
 // siteDeps: data and control dependence of an emission site, specialised to u.
 func (m *matrix) siteDeps(s site, u *unit) (data, ctrl src) {
 	c := m.ctx(s.fn, u)
+	c.bindParams = true
 	data = c.deps(s.val) &^ sNAME
 	ctrl = c.ctrlDeps(s.instr.Block()) &^ sNAME
 	return
 }
 
+// siteDataFull: data dependence of a site with calls to other emitter roots summarised instead of opaque.
+func (m *matrix) siteDataFull(s site, u *unit) src {
+	c := m.ctx(s.fn, u)
+	c.bindParams = true
+	c.noOpaque = true
+	return c.deps(s.val) &^ sNAME
+}
+
 // ---- anchors ----
 
 type genAnchors struct {
-	Lang     string
-	Recv     string
-	Enc      []string
-	Dec      []string
-	Dispatch []string // emitters of the match dispatch table
-	TypeEm   []string // member-type emitters
-	Test     []string // sample/test emitters
-	Padding  string
-	Table    string
+	Lang  string
+	Recv  string
+	Table string
 }
 
 var anchorTable = []genAnchors{
-	{Lang: "go", Recv: "GoGenerator", Enc: []string{"generateEncodingCode", "generateEncodingField", "generateEncodingListField"}, Dec: []string{"generateDecodingCode", "generateDecodingField", "generateDecodingListField"},
-		Dispatch: []string{"generateInit"}, TypeEm: []string{"getFieldType"}, Test: []string{"generateNewInstance", "generateTestValue"}, Padding: "GetPadding", Table: "goBasicTypeMap"},
-	{Lang: "rust", Recv: "RustGenerator", Enc: []string{"EncodeField", "EncoderMatchField"}, Dec: []string{"DecodeField", "DecodeMatchField"},
-		Dispatch: []string{"DecodeMatchField"}, TypeEm: []string{"GetFieldType"}, Test: []string{"testValue", "testValueSingle", "testValueList", "testMatchValue"}, Padding: "GetPadding"},
-	{Lang: "java", Recv: "JavaGenerator", Enc: []string{"GenerateEncode", "GenerateEncodeField"}, Dec: []string{"GenerateDecode", "GenerateDecodeField"},
-		Dispatch: []string{"GenerateMessageFactory"}, TypeEm: []string{"GetFieldType"}, Test: []string{"GenerateNewInstance"}, Padding: "GetPadding", Table: "javaBasicTypeMap"},
-	{Lang: "python", Recv: "PythonGenerator", Enc: []string{"generateEncodeMethod", "generateEncodeField"}, Dec: []string{"generateDecodeMethod", "generateDecodeField"},
-		Dispatch: []string{"generateCodeForPacket"}, TypeEm: nil, Test: []string{"generateNewInstance", "generateTestValue"}, Padding: "GetPadding", Table: "pyBasicTypeMap"},
-	{Lang: "cpp", Recv: "CppGenerator", Enc: []string{"generateEncode"}, Dec: []string{"generateDecode"},
-		Dispatch: []string{"generateCodeForPacket"}, TypeEm: []string{"getFieldType"}, Test: []string{"generateNewInstance", "generateMakeUniqueInstance", "generateTestValue"}, Padding: "GetPadding", Table: "cppBasicTypeMap"},
-	{Lang: "lua", Recv: "LuaWspGenerator", Enc: nil, Dec: []string{"decodeField", "decodeList", "decodeListSize", "decodeStringLen", "decodeFieldForLocal"},
-		Dispatch: []string{"decodeField"}, TypeEm: nil, Test: nil, Table: "luaBasicTypeMap"},
+	{Lang: "go", Recv: "GoGenerator", Table: "goBasicTypeMap"},
+	{Lang: "rust", Recv: "RustGenerator"},
+	{Lang: "java", Recv: "JavaGenerator", Table: "javaBasicTypeMap"},
+	{Lang: "python", Recv: "PythonGenerator", Table: "pyBasicTypeMap"},
+	{Lang: "cpp", Recv: "CppGenerator", Table: "cppBasicTypeMap"},
+	{Lang: "lua", Recv: "LuaWspGenerator", Table: "luaBasicTypeMap"},
 }
 
+// camelWords splits an identifier into lower-cased words (generateStructCode -> generate, struct, code).
+func camelWords(name string) []string {
+	var words []string
+	cur := ""
+	rs := []rune(name)
+	for i, r := range rs {
+		if r == '_' {
+			if cur != "" {
+				words = append(words, strings.ToLower(cur))
+				cur = ""
+			}
+			continue
+		}
+		if i > 0 && r >= 'A' && r <= 'Z' && cur != "" {
+			prevUpper := rs[i-1] >= 'A' && rs[i-1] <= 'Z'
+			nextLower := i+1 < len(rs) && rs[i+1] >= 'a' && rs[i+1] <= 'z'
+			if !prevUpper || nextLower {
+				words = append(words, strings.ToLower(cur))
+				cur = ""
+			}
+		}
+		cur += string(r)
+	}
+	if cur != "" {
+		words = append(words, strings.ToLower(cur))
+	}
+	return words
+}
+
+// nameHas: some word of the function's name starts with one of the given stems.
+func nameHas(fn *ssa.Function, stems ...string) bool {
+	for _, w := range camelWords(fn.Name()) {
+		for _, s := range stems {
+			if strings.HasPrefix(w, s) {
+				return true
+			}
+		}
+	}
+	return false
+}
+
+// roleOf classifies a generator function by the project's naming convention (every generator names its emitters
+// ...Encod..., ...Decod..., ...Test/Instance...); everything inside the functions is found semantically.
+func roleOf(fn *ssa.Function) string {
+	switch {
+	case nameHas(fn, "test", "instance", "fixture", "sample"):
+		return "test"
+	case nameHas(fn, "encod"):
+		return "enc"
+	case nameHas(fn, "decod", "dissect"):
+		return "dec"
+	}
+	return ""
+}
+
+// resolveAnchors discovers, per generator, the encode / decode emitter roots (by name), their helper closure,
+// the dispatch emitters (semantically: a site depending on both key and packet of a match pair), the test emitters and the padding helper.
+// Keys: "enc"/"dec" = roots + helpers (all functions whose sites belong to the direction), "encroots"/"decroots" = roots only.
 func (m *matrix) resolveAnchors(r *Report) map[string]map[string][]*ssa.Function {
 	out := map[string]map[string][]*ssa.Function{}
-	reach := map[*ssa.Function]bool{}
+	gens, err := m.w.generateFuncs()
+	if err != nil {
+		r.fatal("%v", err)
+		return out
+	}
+	inSet := map[*ssa.Function]bool{}
 	for _, f := range m.funcs {
-		reach[f] = true
+		inSet[f] = true
 	}
 	for _, ga := range anchorTable {
 		out[ga.Lang] = map[string][]*ssa.Function{}
-		add := func(role string, names []string) {
-			for _, n := range names {
-				fn := lookupFunc(m.w.Parser, ga.Recv, n)
-				if fn == nil {
-					r.fatal("anchor unresolved: (%s).%s (%s emitter of %s) - the frozen anchor table needs a one-line update after a rename", ga.Recv, n, role, ga.Lang)
-					continue
-				}
-				if !reach[fn] {
-					r.fatal("anchor (%s).%s is no longer reachable from %s.Generate", ga.Recv, n, ga.Recv)
-					continue
-				}
-				out[ga.Lang][role] = append(out[ga.Lang][role], fn)
-				if role == "enc" || role == "dec" {
-					m.anchors[fn] = true
-				}
+		reach := m.w.subjectsOnly(m.w.reachable([]*ssa.Function{gens[ga.Lang]}, func(f *ssa.Function) bool { return m.w.isRepoLike(f) }))
+		var own []*ssa.Function
+		for _, f := range sortedFuncs(reach) {
+			if !inSet[f] || f.Pkg != m.w.Parser {
+				continue
+			}
+			if rn := recvNamedCore(f); rn != "" && rn != ga.Recv {
+				continue
+			}
+			own = append(own, f)
+		}
+		roots := map[string][]*ssa.Function{}
+		for _, f := range own {
+			if f.Name() == "Generate" {
+				continue
+			}
+			if role := roleOf(f); role != "" {
+				roots[role] = append(roots[role], f)
+			}
+			// padding helper: func(*model.Field) *model.Padding
+			sig := f.Signature
+			if sig.Results().Len() == 1 && typeIs(sig.Results().At(0).Type(), modPath+"/internal/model", "Padding") && sig.Params().Len() == 1 && isFieldPtr(sig.Params().At(0).Type()) && recvNamedCore(f) == ga.Recv {
+				out[ga.Lang]["padding"] = append(out[ga.Lang]["padding"], f)
 			}
 		}
-		add("enc", ga.Enc)
-		add("dec", ga.Dec)
-		add("dispatch", ga.Dispatch)
-		add("type", ga.TypeEm)
-		add("test", ga.Test)
-		if ga.Padding != "" {
-			add("padding", []string{ga.Padding})
+		isRoot := map[*ssa.Function]string{}
+		for role, fs := range roots {
+			for _, f := range fs {
+				isRoot[f] = role
+			}
 		}
+		for _, role := range []string{"enc", "dec", "test"} {
+			// closure: roots + helpers reachable by static calls, not entering roots of another role
+			seen := map[*ssa.Function]bool{}
+			var stack []*ssa.Function
+			for _, f := range roots[role] {
+				seen[f] = true
+				stack = append(stack, f)
+			}
+			for len(stack) > 0 {
+				f := stack[len(stack)-1]
+				stack = stack[:len(stack)-1]
+				forEachInstr(f, func(b *ssa.BasicBlock, ins ssa.Instruction) {
+					c, ok := ins.(ssa.CallInstruction)
+					if !ok {
+						return
+					}
+					g := c.Common().StaticCallee()
+					if g == nil || seen[g] || !inSet[g] || g.Pkg != m.w.Parser {
+						return
+					}
+					if rn := recvNamedCore(g); rn != "" && rn != ga.Recv {
+						return
+					}
+					if rr, ok := isRoot[g]; ok && rr != role {
+						return
+					}
+					seen[g] = true
+					stack = append(stack, g)
+				})
+			}
+			out[ga.Lang][role] = sortedFuncs(seen)
+			out[ga.Lang][role+"roots"] = roots[role]
+		}
+		for _, f := range roots["enc"] {
+			m.anchors[f] = true
+		}
+		for _, f := range roots["dec"] {
+			m.anchors[f] = true
+		}
+		out[ga.Lang]["own"] = own
 	}
 	return out
 }
@@ -1020,12 +1338,14 @@ type groupDeps struct {
 	deps  src
 	sites int
 	state St
+	root  bool
+	data  src // data dependence only (what the emitted text is made from)
 }
 
 func (m *matrix) unitGroups(fns []*ssa.Function, u unit) []groupDeps {
 	var out []groupDeps
 	for _, fn := range fns {
-		g := groupDeps{fn: fn}
+		g := groupDeps{fn: fn, root: m.anchors[fn]}
 		for _, s := range m.sitesOf(fn) {
 			st, f := m.stateAt(fn, s.instr.Block())
 			if f == nil || st.empty() || !st.admits(u) {
@@ -1039,6 +1359,7 @@ func (m *matrix) unitGroups(fns []*ssa.Function, u unit) []groupDeps {
 			}
 			d, c := m.siteDeps(s, &u)
 			g.deps |= d | c
+			g.data |= d
 			g.sites++
 			g.state = g.state.join(st)
 		}
